@@ -295,6 +295,8 @@ def run_check(tier, seed):
                 lc = last_call(r["progress"])
                 if kind == "inconclusive":
                     inconclusive += 1
+                    say(f"  inconclusive (watchdog / time limit) at "
+                        f"{json.dumps(lc)[:300]}")
                 else:
                     violations.append((sig, a, r, detail, lc))
                 # carry on with the sessions after the one that ended the child
